@@ -49,6 +49,7 @@ pub struct Probes {
     pub clustered_acts: u64,
     pub recharge_acts: u64,
     pub recharge_limit_tight: u64,
+    pub time_dependent_legs: u64,
 }
 
 impl Probes {
@@ -58,7 +59,7 @@ impl Probes {
             tours, activities, multi_activity_stops, waiting_acts, tw_tight, cap_tight, dist_limit_tight,
             dur_limit_tight, size_limit_tight, reload_acts, break_acts, tours_too_ambiguous, multi_jobs_assigned, unassigned,
             skipped_time_replay, tags_checked, order_checked, groups_checked, compat_checked, skills_checked,
-            unreachable_checked, relations_checked, resources_checked, shift_latest_tight, open_tours, clustered_acts, recharge_acts, recharge_limit_tight
+            unreachable_checked, relations_checked, resources_checked, shift_latest_tight, open_tours, clustered_acts, recharge_acts, recharge_limit_tight, time_dependent_legs
         );
     }
     pub fn to_json(&self) -> serde_json::Value {
@@ -67,7 +68,7 @@ impl Probes {
             tours, activities, multi_activity_stops, waiting_acts, tw_tight, cap_tight, dist_limit_tight,
             dur_limit_tight, size_limit_tight, reload_acts, break_acts, tours_too_ambiguous, multi_jobs_assigned, unassigned,
             skipped_time_replay, tags_checked, order_checked, groups_checked, compat_checked, skills_checked,
-            unreachable_checked, relations_checked, resources_checked, shift_latest_tight, open_tours, clustered_acts, recharge_acts, recharge_limit_tight
+            unreachable_checked, relations_checked, resources_checked, shift_latest_tight, open_tours, clustered_acts, recharge_acts, recharge_limit_tight, time_dependent_legs
         )
     }
 }
@@ -302,7 +303,9 @@ pub fn check_tour(m: &PModel, ti: usize, t: &STour, out: &mut Vec<Issue>, probes
         let mut o = vec![];
         let mut p = Probes::default();
         let r = check_tour_inner(m, ti, t, assign, &mut o, &mut p);
-        let key = |v: &Vec<Issue>| (v.iter().filter(|i| i.prop == "C01").count(), v.len());
+        // the interpretation the reported times agree with is the one the solver meant (fewest C03 mismatches); among
+        // equally consistent ones the one with the fewest issues is judged
+        let key = |v: &Vec<Issue>| (v.iter().filter(|i| i.prop == "C03").count(), v.len());
         let better = match &best {
             None => true,
             Some((bo, _, _)) => key(&o) < key(bo),
@@ -412,7 +415,10 @@ fn check_tour_inner(m: &PModel, ti: usize, t: &STour, assign: &BTreeMap<usize, u
     };
     probes.tours += 1;
     let n = mx.n;
-    let tol: f64 = 1.0;
+    // one unit of output rounding; with time-dependent routing the replay starts from the rounded departure and every
+    // leg is priced at a time which is off by the error so far: one more unit per leg
+    let time_dependent = !mx.slices.is_empty();
+    let mut tol: f64 = 1.0;
 
     let mut flat: Vec<FlatAct> = vec![];
     for (si, st) in t.stops.iter().enumerate() {
@@ -553,6 +559,9 @@ fn check_tour_inner(m: &PModel, ti: usize, t: &STour, assign: &BTreeMap<usize, u
 
     for (i, f) in flat.iter().enumerate().skip(1) {
         probes.activities += 1;
+        if time_dependent {
+            tol += 1.0;
+        }
         let a = f.act;
         let loc = match a.loc.or(f.stop.loc) {
             Some(l) if l < n => l,
@@ -648,7 +657,7 @@ fn check_tour_inner(m: &PModel, ti: usize, t: &STour, assign: &BTreeMap<usize, u
                 for (from, to, reported) in [(a.commute_fwd.and_then(|c| c.0), Some(loc), a.commute_fwd.map(|c| c.1)), (Some(loc), a.commute_bck.and_then(|c| c.0), a.commute_bck.map(|c| c.1))] {
                     if let (Some(from), Some(to)) = (from, to) {
                         if from < cmx.n && to < cmx.n && from != to {
-                            let flagged = cmx.err.as_ref().is_some_and(|e| e[from * cmx.n + to] > 0);
+                            let flagged = cmx.flagged(from, to);
                             if flagged || reported.is_some_and(|d| d < 0.0) {
                                 out.push(Issue { prop: F, rule: "unreachable-leg", msg: format!("tour {ti}: commute {from}->{to} of '{}' is flagged unreachable (reported distance {:?})", a.job_id, reported), tag: "commute-leg" });
                             }
@@ -661,17 +670,21 @@ fn check_tour_inner(m: &PModel, ti: usize, t: &STour, assign: &BTreeMap<usize, u
         let loc = if in_cluster { f.stop.loc.filter(|l| *l < n).unwrap_or(loc) } else { loc };
         let _ = place_loc;
         // travel
-        let raw_dur = mx.dur[prev_loc * n + loc];
-        let raw_dist = mx.dist[prev_loc * n + loc];
-        let flagged = mx.err.as_ref().is_some_and(|e| e[prev_loc * n + loc] > 0);
+        // (time-dependent routing: the leg is priced at the time it is left)
+        let raw_dur = mx.duration(prev_loc, loc, tcur);
+        let raw_dist = mx.distance(prev_loc, loc, tcur);
+        let flagged = mx.flagged(prev_loc, loc);
+        if !mx.slices.is_empty() {
+            probes.time_dependent_legs += 1;
+        }
         if mx.err.is_some() {
             probes.unreachable_checked += 1;
         }
-        if flagged || (mx.err.is_some() && (raw_dur < 0 || raw_dist < 0)) {
+        if flagged || (mx.err.is_some() && (raw_dur < 0.0 || raw_dist < 0)) {
             out.push(Issue { prop: F, rule: "unreachable-leg", msg: format!("tour {ti} drives flagged leg {prev_loc}->{loc}"), tag: if clustered_tour { "tour-with-cluster" } else { "" } });
             time_ok = false;
         }
-        let travel = raw_dur as f64 * vt.scale;
+        let travel = raw_dur * vt.scale;
         let arr = tcur + travel;
 
         if cands.is_empty() {
@@ -707,6 +720,9 @@ fn check_tour_inner(m: &PModel, ti: usize, t: &STour, assign: &BTreeMap<usize, u
             })
             .unwrap();
         let ((late, _err, start, end), cand) = best;
+        if std::env::var_os("VSIM_ORACLE_TRACE").is_some() {
+            crate::say!("ORACLE tour {ti} act {i} {}:{} loc {loc} leg {prev_loc}->{loc} left at {:.1} travel {:.2} arr {:.1} start {:.1} end {:.1} | reported stop {}..{} act {:?}..{:?} | cands {} chosen dur {} tw {:?} assign {:?}", a.job_id, a.kind, tcur, travel, arr, start, end, f.stop.arrival, f.stop.departure, a.start, a.end, cands.len(), cand.dur, cand.tw, assign.get(&i));
+        }
         if let Some(ji) = job_ref {
             used_tasks.get_mut(&m.jobs[ji].id).unwrap()[cand.task] = true;
             matched[i] = Some((ji, cand.task));
@@ -750,8 +766,10 @@ fn check_tour_inner(m: &PModel, ti: usize, t: &STour, assign: &BTreeMap<usize, u
                 let consistent: Vec<&Cand> = cands
                     .iter()
                     .filter(|c| {
-                        let (l, e, _, _) = eval(c);
-                        !l && e <= 2.0 * tol
+                        // (a place whose window is missed is still "the place actually used" when the reported times are
+                        // those of that place: the missed window is C01's matter)
+                        let (_, e, _, _) = eval(c);
+                        e <= 2.0 * tol
                     })
                     .collect();
                 if !consistent.is_empty() {
@@ -932,7 +950,7 @@ fn check_tour_inner(m: &PModel, ti: usize, t: &STour, assign: &BTreeMap<usize, u
             if (t.stat.duration as f64 - total_duration).abs() > tol {
                 issue(out, S, "tour-duration", format!("tour {ti}: statistic duration {} recomputed {:.1}", t.stat.duration, total_duration));
             }
-            if t.stat.driving != driving {
+            if (t.stat.driving - driving).abs() > if time_dependent { n_acts } else { 0 } {
                 issue(out, S, "tour-driving", format!("tour {ti}: statistic driving {} recomputed {}", t.stat.driving, driving));
             }
             if t.stat.serving != serving {
@@ -945,7 +963,7 @@ fn check_tour_inner(m: &PModel, ti: usize, t: &STour, assign: &BTreeMap<usize, u
                 issue(out, S, "tour-break", format!("tour {ti}: statistic break {} recomputed {}", t.stat.break_time, break_time));
             }
             let want = vt.fixed + cost;
-            let ctol = 1e-6 * want.abs().max(1.0) + if m.fractional { vt.ct * (n_acts as f64 + 1.0) } else { 0.0 };
+            let ctol = 1e-6 * want.abs().max(1.0) + if m.fractional { vt.ct * (n_acts as f64 + 1.0) * if time_dependent { 2.0 } else { 1.0 } } else { 0.0 };
             if (t.stat.cost - want).abs() > ctol {
                 issue(out, S, "tour-cost", format!("tour {ti}: statistic cost {} recomputed {}", t.stat.cost, want));
             }
